@@ -81,6 +81,12 @@ MUTANTS = [  # (contract module, qualname, file, regex, replacement, expect)  ex
  ("contracts.c08", "DAG.get_independencies", "pgmpy/base/DAG.py", r"                        rest\n                        - set\(observed\)\n", "                        rest\n", "break"),
  ("contracts.c08", "DAG.get_independencies", "pgmpy/base/DAG.py", r"for r in range\(len\(rest\)\):", "for r in range(len(rest) - 1):", "break"),
  ("contracts.c08", "DAG.get_independencies", "pgmpy/base/DAG.py", r"if d_seperated_variables:", "if not d_seperated_variables:", "break"),
+ ("contracts.c05", "BayesianNetwork.check_model", "pgmpy/models/BayesianNetwork.py", r"if set\(evidence\) != set\(parents\):", "if not set(evidence) <= set(parents):", "break"),
+ ("contracts.c05", "BayesianNetwork.check_model", "pgmpy/models/BayesianNetwork.py", r"if not cpd.is_valid_cpd\(\):", "if False:", "break"),
+ ("contracts.c05", "BayesianNetwork.check_model", "pgmpy/models/BayesianNetwork.py", r"cpd.cardinality\[1 \+ index\]", "cpd.cardinality[index]", "break"),
+ ("contracts.c05", "BayesianNetwork.check_model", "pgmpy/models/BayesianNetwork.py", r"if parent_cpd.state_names\[node\] != cpd.state_names\[node\]:", "if parent_cpd.state_names[node] == cpd.state_names[node]:", "break"),
+ ("contracts.c08", "DAG.active_trail_nodes", "pgmpy/base/DAG.py", r"        if observed is not None:\n            if isinstance\(observed, set\):", "        if observed:\n            if isinstance(observed, set):", "break"),
+ ("contracts.c01", "BaseEliminationOrder.get_elimination_order", "pgmpy/inference/EliminationOrder.py", r"        while nodes:\n            scores = \{node: self.cost\(node\) for node in nodes\}\n            min_score_node = min\(scores, key=scores.get\)\n", "        while True:\n            min_score_node = min(nodes, key=self.cost, default=None)\n            if not min_score_node:\n                break\n", "break"),
 ]
 
 
